@@ -718,6 +718,9 @@ func (u *Unmarshaler) processFieldWithEnvValue(fieldType reflect.Type, value ref
 		value.SetString(envVal)
 		return nil
 	default:
+		// 指针字段需先分配：processFieldPrimitiveWithJSONNumber 会对 value.Elem() 赋值，
+		// nil 指针的 Elem() 是零 Value，会 panic。processNamedFieldWithValue 也是这样先分配的。
+		maybeNewValue(fieldType, value)
 		return u.processFieldPrimitiveWithJSONNumber(fieldType, value, json.Number(envVal), opts, fullName)
 	}
 }
